@@ -29,7 +29,8 @@ EXPLANATION = (
     'serialize and deSerialize use inverse shift/mask sequences in reverse field order with widths that fit; (7) at every call of '
     'makeMove/makeMoveB/makeSEEMove on a position that outlives the call (member or reference parameter; 8 named advancing '
     'functions excepted) every non-exceptional path to the exit or to the next make passes the matching unmake with the same move and undo record.'
-    ' (8) the en-passant mask tables hold, for each file, exactly the neighbouring squares on the capturing rank (finite evaluation over the 8 files) and makeMove records an en-passant square only under that mask test; (4, 5 widths) every UndoInfo field and every packed field of the compact form is as wide as the Position attribute it holds unless a stated value range is narrower; (9) every fresh en-passant store is followed by fixupEPSquare (the normal form readFEN produces). Three genuine violations of the property on the pinned tree are recorded as known findings (8-bit clock and 16-bit move number in the compact form; makeMove records an en-passant square whose capture is illegal).')
+    ' (8) the en-passant mask tables hold, for each file, exactly the neighbouring squares on the capturing rank (finite evaluation over the 8 files) and makeMove records an en-passant square only under that mask test; (4, 5 widths) every UndoInfo field and every packed field of the compact form is as wide as the Position attribute it holds unless a stated value range is narrower; (9) every fresh en-passant store is followed by fixupEPSquare (the normal form readFEN produces). Three genuine violations of the property on the pinned tree are recorded as known findings (8-bit clock and 16-bit move number in the compact form; makeMove records an en-passant square whose capture is illegal).'
+    ' Added later; (10) the attribute assignment inside every one-argument setter of Position has exactly the parameter on its right-hand side.')
 UNDECIDED = ('equality of hash keys of rule-equal positions as values, bit-identity after arbitrary histories, FEN round trip of '
              'counters (value-level).')
 ASSUMPTIONS = ['material domain: <= 16 men per side, pawns + promoted officers <= 8 per side (the property\'s domain)',
@@ -78,6 +79,7 @@ def run(fb, rep, tier):
     c7_pairing(fb, rep)
     c8_ep_square(fb, rep)
     c9_ep_normal_form(fb, rep)
+    c10_setter_identity(fb, rep)
 
 
 # ----------------------------------------------------------------------------- .1
@@ -893,3 +895,38 @@ def c9_ep_normal_form(fb, rep):
         bad = [x for x in lst if not x[0]]
         rep.ob(clause, 'K4 normal form', '%s: a freshly recorded en-passant square is normalised (kept only if an en-passant capture is legal) before the position is used' % name,
                not bad, R.site(lst[0][2], (bad or lst)[0][1]), '%d fresh store(s), %d not followed by fixupEPSquare' % (len(lst), len(bad)), name)
+
+
+# ----------------------------------------------------------------------------- .10
+
+def c10_setter_identity(fb, rep):
+    """K10: readFEN, deSerialize-style builders and the search's own edit/restore pairs (null move: clock saved, zeroed,
+    restored) write single attributes through the one-argument setters of Position.  A position reads back identical, and
+    an edit is undone exactly, only if such a setter stores the value it is given: the attribute assignment inside a
+    `set<Attribute>(x)` must have exactly `x` on its right-hand side - no clamping, masking or normalisation (range
+    checks belong to the parser that accepts the value, cf. the negative clock rejected in readFEN)."""
+    clause = 'C02.10'
+    n = 0
+    for f in sorted((f for f in fb.funcs.values() if f.has_cfg and f.d.get('cls') in ('Position', 'PositionBase')), key=lambda x: x.key):
+        name = f.sname.split('::')[-1]
+        params = f.d.get('params', [])
+        if not name.startswith('set') or len(params) != 1 or name in ('setPiece',):
+            continue
+        pid = params[0].get('id')
+        for b, i, e in f.events():
+            tgt = val = None
+            if e.get('k') == 'asg' and e.get('op') == '=':
+                tgt, val = e.get('l'), e.get('r')
+            elif e.get('k') == 'call' and e.get('op') == '=' and e.get('args'):
+                tgt, val = e.get('recv'), e['args'][0]
+            if tgt is None or not (ap(tgt) or '').startswith('this.') or '.' in (ap(tgt) or '')[5:]:
+                continue
+            if not any(x.get('k') == 'var' and x.get('id') == pid for x in walk(val)):
+                continue
+            n += 1
+            v = _strip(val)
+            while isinstance(v, dict) and v.get('k') == 'ctor' and len(v.get('args', [])) == 1:
+                v = _strip(v['args'][0])
+            rep.ob(clause, 'K10 setter identity', '%s stores its argument unchanged in %s' % (name, ap(tgt)[5:]), isinstance(v, dict) and v.get('k') == 'var' and v.get('id') == pid,
+                   R.site(f, e), 'stored: %s' % show(val, 80), f.sname)
+    rep.floor(clause, 'attribute stores in one-argument setters of Position', n, 4)
